@@ -38,6 +38,7 @@ TEXTBOOK = {
     "none-level-in-the-middle": 'grammar g; @left "+"; @none "<"; @left "|"; start = e; e = e "+" e | e "|" e | e "<" e | "n";',
     "rule-handle-after-its-rule": 'grammar demo; start = e; e = e e | "a"; @left <e = e e> "a";',
     "directives-after-the-rules": 'grammar g; start = e; e = e "+" e | e "*" e | "-" e | "n"; @right <e = "-" e>; @left "*"; @left "+";',
+    "lalr-not-slr-with-idle-directives": 'grammar demo; start = x "a" | "b" x "c" | "d" "c" | "b" "d" "a"; x = "d"; @left "d"; @left "a" "c";',
     "binary-rule-handle": 'grammar g; @left <e = e "+" e>; start = e; e = e "+" e | "n";',
 }
 
